@@ -26,6 +26,14 @@ LEVEL = {
             "Iter's pointer arithmetic is modelled as list traversal; that Iter visits exactly the cached archetypes is tied by the `trace` channel (this is where F9 was found)."),
     "C07": ("full-core", "Proof for every history of inserts (increasing serials) and removes of the three-segment handler list: entries are always ordered by priority class then insertion serial, a new handler goes to the end of its class, removal moves nothing else. World level (new archetypes register handlers in insertion order; global and per-archetype lists) is tied by the `trace` channel and, in C17 runs, by exact comparison of every list with the hook snapshot and the executable invariant.",
             "That the world's insert counter is strictly increasing and that new archetypes iterate by_insert_order is modelled and validated, not proved."),
+    "C11": ("full-core", "Proof about the executed event loop for EVERY per-event step: the events delivered by a flush are exactly (as a multiset, no duplicates) the initially queued events plus everything any delivery left queued — none delivered twice, none lost — and nothing is queued on return; for the model's own `deliverOne`, the per-delivery disposition of the event ledger is proved (dead target / taken / normal completion each destroy the in-flight user event exactly once, built-in events add nothing), hence `flush_destroys_each_user_event_once`. Correspondence: multiset of destroyed event serials and component values per operation, incl. values of unapplied Inserts and events dropped when registration unwinds.",
+            "The storage half of the disposition (an applied Insert's value is stored, not dropped) rests on the C02/C12 theorems about moveCols and on the `cdrops` channel; it is not restated for the monadic deliverOne."),
+    "C12": ("full-core", "Proof (pure counterparts of move_entity / remove_entity built from the same moveCols, swapRemove, assignCol as the world model, any number of archetypes/columns/rows): conservation — stored + newly supplied cells = stored afterwards + dropped, as multisets; the dropped cells of a despawn are exactly the entity's; a dropped serial is not reachable through get afterwards and no reachable cell is dropped. Layout classes (sized/zero-sized x plain/over-aligned x destructor) are covered on the implementation side by six component types whose destructors log; the `cdrops` channel compares per-operation multisets incl. world drop and component-type removal. F5 fixed.",
+            "Archetype::drop and the layout-dependent parts (zero-sized columns never allocate) are modelled as `drop every stored cell`; the real destructor calls are observed, not proved."),
+    "C13": ("full-core", "Proof about the executed event loop for EVERY per-event step and EVERY position of the panicking delivery: the loop rethrows the panic, and the state it leaves is the one the delivery left with the rest of the stack and the segment pushed so far handed to `dropQueued` exactly once, the queue empty afterwards; `dropQueued` destroys exactly the queued events whose registry entry has a destructor (spec proved); registries cannot change during a flush, so registration is checked in the starting world; the pending events at the panic are exactly the undelivered ones (multiset accounting). Correspondence: panics injected by scripts at arbitrary handler positions in dense graphs; per-operation multisets of destroyed events/components; world drop afterwards.",
+            "The in-flight event's own disposition on unwinding (dropped unless taken) is part of the model's deliverOne and is tied by the `evdrops` channel."),
+    "C20": ("partial", "Proof, partial: for every per-event step that leaves the arena epoch alone — proved for the model's `deliverOne` through a frame lemma for each of the 34 functions it reaches — every delivery of a flush sees the epoch of its start, and the epoch advances exactly once, after the last delivery, when the queue is empty; on unwinding it does not advance. Hence an allocation stamped during a flush is valid in every delivery of that flush. Correspondence: checksummed arena slices/strings of 0..64 KiB forwarded through several handlers with unrelated allocations and deliveries in between.",
+            "bumpalo's chunk management and the layouts passed to it are exercised by checksums, not proved."),
     "C16": ("full-core", "Proof: add-if-absent over the slot-map registries is idempotent (same id, map unchanged), ids of removed items are never valid and never reissued, index reuse strictly increases the generation, at most one live entry per type — for every registry history. Correspondence: concrete ids of every component/event/handler after every operation, notification traces, stale-id counter.",
             "Notification order (Add* sent after insertion) is part of the world model and tied by the `trace` channel."),
     "C18": ("partial", "Proof, partial: the ReadOnlyQuery gate table is regenerated from the marker impls and bounds in the source; readOnly_sound proves that a query admitted by the gate never hands out a mutable reference on any archetype, and the other gates (Mutability bounds, conditional Send/Sync impls, World's marker) are checked present. Correspondence with rustc as the implementation: ~100 small programs, each forbidden program must be rejected and its permitted twin accepted; the model's gate verdict is compared with rustc's.",
